@@ -48,11 +48,18 @@ FAULTS = [lambda: None, lambda: OSError(104, "reset"), lambda: RuntimeError("boo
 class SilentSSL:
     """peer never answers: every handshake/unwrap attempt emits a record and wants to read"""
 
-    def __init__(self, wbio):
+    def __init__(self, wbio, fail_locally=False):
         self.wbio = wbio
         self.context = None
+        self.fail_locally = fail_locally
+        self.handshakes = 0
 
     def do_handshake(self):
+        self.handshakes += 1
+        if self.fail_locally and self.handshakes >= 2:
+            # local TLS-level failure (e.g. certificate verification): an alert record is queued for the peer, then SSLError
+            self.wbio.write(b"ALERT")
+            raise _ssl.SSLError(1, "[SSL: CERTIFICATE_VERIFY_FAILED] stub")
         self.wbio.write(b"H")
         raise _ssl.SSLWantReadError()
 
@@ -74,11 +81,12 @@ class SilentSSL:
 
 
 class StubContext:
-    def __init__(self):
+    def __init__(self, fail_locally=False):
         self.made = None
+        self.fail_locally = fail_locally
 
     def wrap_bio(self, read_bio, write_bio, **kw):
-        self.made = SilentSSL(write_bio)
+        self.made = SilentSSL(write_bio, self.fail_locally)
         return self.made
 
 
@@ -172,7 +180,39 @@ def close(path: str, Kmax: int = 8, susp: int = 1, two_cancels: bool = False, bu
             elif path == "tls-wrap":
                 a = mem(S.choice(3, "fault"))
                 expire = S.bool("handshake_timeout_first")
-                op = lambda: AsyncTLSStreamTransport.wrap(a, StubContext(), handshake_timeout=5.0, server_hostname="x")  # noqa: E731
+                # the wrapped transport may also fail or stall when asked to send (handshake records, alerts)
+                a.send_error = [None, OSError(32, "pipe"), RuntimeError("boom")][S.choice(3, "send_fault")]
+                stall = S.pick([0, 3], "send_stalls_for")
+                a.send_suspensions = lambda: stall
+                fail_locally = S.bool("handshake_fails_locally")
+                # the peer answers the first flight (so that a second do_handshake() call happens) when the failure is local
+                if fail_locally:
+                    a.incoming = b"S"
+                    a.available = 1
+                op = lambda: AsyncTLSStreamTransport.wrap(a, StubContext(fail_locally), handshake_timeout=5.0, server_hostname="x")  # noqa: E731
+            elif path == "aclient-connecting":
+                # the real AsyncTCPNetworkClient: aclose() while the (lazy) connection attempt of another task is in flight
+                from easynetwork.clients.async_tcp import AsyncTCPNetworkClient
+
+                from .c12 import MemBackend
+
+                fault = S.choice(3, "fault")
+                delay = S.pick([1, 2, 3], "connect_takes")
+
+                class SlowBackend(MemBackend):
+                    async def create_tcp_connection(self, host, port, **kw):
+                        for _ in range(delay):
+                            await self.coro_yield()
+                        return self._factory()
+
+                mb = SlowBackend(lambda: mem(fault))
+                obj = AsyncTCPNetworkClient(("host", 1), StreamProtocol(L.RawSep(b"\n", limit=8)), mb)
+                connecting = loop.create_task(obj.wait_connected())
+                for _ in range(S.pick([0, 1, 2, 3], "close_starts_after")):
+                    loop.step()
+                op = obj.aclose
+                outer_closing = obj.is_closing
+                second = obj.aclose
             else:
                 raise ValueError(path)
 
@@ -216,6 +256,10 @@ def close(path: str, Kmax: int = 8, susp: int = 1, two_cancels: bool = False, bu
                 if task.done():
                     break
                 loop.step()
+            if path == "aclient-connecting":
+                loop.run_until_idle(60)
+                if connecting.done() and not connecting.cancelled():
+                    connecting.exception()
             if sender is not None:
                 for _ in range(50):
                     if sender.done():
@@ -252,7 +296,10 @@ def close(path: str, Kmax: int = 8, susp: int = 1, two_cancels: bool = False, bu
                     ok = False
                     problems.append("second aclose() did not return promptly")
                     t2.cancel()
-                elif not t2.cancelled():
+                elif t2.cancelled():
+                    ok = False
+                    problems.append("second aclose() raised CancelledError although nobody cancelled it")
+                else:
                     t2.exception()
             tags = []
             if cancelled_running:
@@ -270,7 +317,7 @@ def shards(tier: str):
     out = []
     quick = tier == "quick"
     B = 200 if quick else 1200
-    for path in ("stapled", "forcefully", "endpoint", "serverapi", "adapter", "tls-aclose", "tls-wrap", "aclient"):
+    for path in ("stapled", "forcefully", "endpoint", "serverapi", "adapter", "tls-aclose", "tls-wrap", "aclient", "aclient-connecting"):
         for susp in (1, 2) if path in ("stapled", "serverapi", "tls-aclose") else (1,):
             out.append({"name": f"close/{path}/s{susp}", "scenario": "props.c14:close", "params": dict(path=path, Kmax=8 if quick else 12, susp=susp), "budget": B, "cost": 100, "per_path_timeout": 30})
         # two cancellations (the second one lands while the first is being handled)
